@@ -1758,7 +1758,7 @@ find_reg(const RegisterTable *t,
     struct maybe_register rv = { .valid = true, .handle = 0 };
 
     for (RegisterHandle i = first; i <= last; i++) {
-        if (reg_range_touches(t->entry + i, addr, 1u) == 0) {
+        if (reg_range_touches(t->entry + i, addr, 1u) >= 0) {
             rv.handle = i;
             return rv;
         }
@@ -1850,7 +1850,8 @@ register_foreach_in(RegisterTable *t,
 
     if (startarea.valid) {
         const RegisterHandle first = t->area[startarea.handle].entry.first;
-        const RegisterHandle last = t->area[startarea.handle].entry.last;
+        /* The range may extend beyond the area it starts in. */
+        const RegisterHandle last = t->entries - 1u;
         startreg = find_reg(t, first, last, addr);
     } else {
         startreg = find_reg(t, 0, t->entries - 1u, addr);
